@@ -92,11 +92,28 @@ impl<F: Read + Write + Seek> Stream<F> {
             check_stream_len(minialloc.read().unwrap().version(), size)?;
             let new_position = self.current_position().min(size);
             self.flush_changes()?;
-            resize_stream(
+            let result = resize_stream(
                 &mut minialloc.write().unwrap(),
                 self.stream_id,
                 size,
-            )?;
+            );
+            if result.is_err() {
+                // The stream may have been resized although a later step
+                // (releasing the sectors it no longer uses) failed: whatever
+                // the directory entry says now is this stream's length.
+                let len = minialloc
+                    .read()
+                    .unwrap()
+                    .dir_entry(self.stream_id)
+                    .stream_len;
+                if len != self.total_len {
+                    self.buf_offset_from_start =
+                        self.current_position().min(len);
+                    self.total_len = len;
+                    self.buffer.clear();
+                }
+                return result;
+            }
             self.total_len = size;
             self.buf_offset_from_start = new_position;
             self.buffer.clear();
